@@ -536,9 +536,10 @@ func (tm *TaskMaster) StartTask(t *Task) (*ExecutingTask, error) {
 	if len(t.DBRPs) == 0 {
 		return nil, errors.New("task does contain any dbrps")
 	}
-	if _, ok := tm.tasks[t.ID]; ok {
-		// Starting it again would replace tm.tasks[t.ID] and leave the inputs of the
-		// running task registered: it could never be stopped again.
+	if old, ok := tm.tasks[t.ID]; ok && old.Task.Type == StreamTask && len(tm.taskToForkKeys[t.ID]) > 0 {
+		// The task is still receiving data. Starting it again would replace tm.tasks[t.ID]
+		// and leave the inputs of the running task registered: it could never be stopped again.
+		// A task whose forks are gone (Drain, the execution has ended) may be started again.
 		return nil, fmt.Errorf("task %s is already executing", t.ID)
 	}
 	tm.diag.StartingTask(t.ID)
